@@ -154,3 +154,14 @@ Theorem c08_successive_playlists_monotone : forall si m0 evs r l1 e1 e2 l2 p1 p2
   /\ (forall h1 h2, pl_hint p1 = Some h1 -> pl_hint p2 = Some h2 -> (h1 <= h2)%Z).
 Proof. exact muxer_playlists_monotone. Qed.
 Print Assumptions c08_successive_playlists_monotone.
+
+(* two successive responses to one client are two moments of one write history from Start (the hypothesis shape of
+   C04's two-moment theorems: reach c ops1 m1, m2 = mux_run m1 ops2), whatever the generator *)
+Theorem c08_successive_views_are_two_moments : forall (Rsp : Type) (gen : mstate -> Rsp) c m0 evs r l1 e1 e2 l2,
+  start c = Ok m0 ->
+  of_requester Rsp r (responses mstate Rsp gen m0 (steps_of m0 evs)) = l1 ++ e1 :: e2 :: l2 ->
+  exists ops1 ops2 m1 m2,
+    (exists m00, start c = Ok m00 /\ m1 = mux_run m00 ops1) /\ m2 = mux_run m1 ops2
+    /\ snd e1 = gen m1 /\ snd e2 = gen m2.
+Proof. exact muxer_views_two_moments. Qed.
+Print Assumptions c08_successive_views_are_two_moments.
